@@ -40,7 +40,7 @@ T = {
     text="The written form of Hamiltonian, Momentum, dtKtrace, dtphi, dtgammaup3, dtgammadown3_bssnok, dtAdown3_bssnok, dts_Gamma_bssnok equals the cited textbook equations term by term (sign, coefficient, index pattern), for every input at once.",
     note="Convergence to the true time derivative not decided; helper correctness is C05."),
  "C07": dict(
-    technique="static analysis: exact rational stencil extraction + moment conditions (proof obligations), affine segment arithmetic of the boundary splices with symbolic N, permutation/axis rules (ast, fractions)",
+    technique="static analysis: exact rational stencil extraction + moment conditions (proof obligations); symbolic interpretation of the array plumbing (slice/concatenate/pad/transpose/list terms, N symbolic) on the canonical form of the module, affine segment arithmetic of the boundary splices, permutation/axis and tensor-map term equalities (ast, fractions)",
     category="proof", design="DESIGN.md section 9.2 and section 4 C07",
     text="Proof for all grid sizes, orders, boundary modes, axes and ranks: the 72 moment conditions pin the 12 stencils to the unique standard weights (exact on polynomials of degree <= p); the splices tile [0,N) once with in-range subscripts for N >= 3p/2, periodic/symmetric extensions map index j to (j-m) mod N / the mirror image; y,z operators are the x operator under axis exchange; tensor maps act componentwise in index order.",
     note="Floating-point round-off of the weights and of the sums is not part of the claim; numpy slicing/concatenate/transpose/pad semantics are modelled, not executed."),
@@ -70,7 +70,7 @@ T = {
     text="The index used to pick a row when filing into or filling from the cache is data-dependent on the iteration column of the dictionary it indexes; path/file/dataset-key templates of writer and reader agree.",
     note="Value equality across arbitrary call histories not decided."),
  "C13": dict(
-    technique="static analysis: row-index provenance, template agreement, guard/use agreement, one-append-per-column path counting, dataset write discipline, argument immutability (ast + CFG)",
+    technique="static analysis on the canonical form: row-index provenance (def-use), canonical string templates with role-named holes (writer vs reader), path-condition guard/use agreement, one-entry-per-iteration column rule, dataset write discipline, alias analysis of the arguments (ast + dataflow)",
     category="other", design="DESIGN.md section 9.2 and section 4 C13",
     text="Structural clauses of the save/read round trip decided on all paths.",
     note="HDF5 fidelity (h5py) trusted."),
@@ -90,10 +90,10 @@ T = {
     text="Count/shape/extent clauses decided for all parameters: N points per axis at min+i*d, extents are the last grid point, sizes derive from the arrays, axis letters pair with indices consistently, trims are symmetric multiples of mask_len.",
     note="The written Cartesian->spherical formulas are decided (r, arccos(z/r), sign(y) arccos(x/rho)); the numerical round trip to rounding is not."),
  "C17": dict(
-    technique="static analysis: numeric/symbolic sibling-branch agreement by polynomial normalisation over function atoms; component/axis pairing; static-metric <=> zero-K dependence rule; K = -(1/2 alpha) d_t gamma by syntactic differentiation of the expression trees (chain/product/power rules, exact normal forms, two declared facts) (ast, exact arithmetic)",
+    technique="static analysis: numeric/symbolic sibling-branch agreement by polynomial normalisation over function atoms; component/axis pairing; static-metric <=> zero-K dependence rule; K = -(1/2 alpha) d_t gamma by syntactic differentiation of the expression trees (chain/product/power rules, exact normal forms, two declared facts); scaling-weight (dimensional homogeneity) type system over the closed forms with coordinate weights inferred from the module's own metric (ast, exact arithmetic)",
     category="other", design="DESIGN.md section 9.2 and section 4 C17",
-    text="Decided on the expression trees: the numerical and symbolic forms of every bundled solution agree; K_ij is -(1/(2 alpha)) d_t of the module's own gamma_ij (zero shift) for 7 of 9 modules; components named ab are built from axes a and b.",
-    note="Einstein's equations for the matter content and the published closed-form scalars are NOT decided (second derivatives, inverse metrics and simplification of transcendental expressions: computer algebra, not static analysis); declared facts: LCDM da/dt = a H, Szekeres dZ/dt = dtZ; 2 modules' K are listed unverified."),
+    text="Decided on the expression trees: the numerical and symbolic forms of every bundled solution agree; K_ij is -(1/(2 alpha)) d_t of the module's own gamma_ij (zero shift) for 7 of 9 modules; entry (a, b) of the perturbed-FLRW tensors is built from axes a and b; in the five typable modules every closed form (K, T, rho, p, Ricci and Kretschmann scalars, null expansions) is homogeneous of the scaling weight its role requires.",
+    note="Einstein's equations for the matter content and the published closed-form scalars are NOT decided (second derivatives, inverse metrics and simplification of transcendental expressions: computer algebra, not static analysis); the scaling rule is a necessary condition of those clauses only; declared facts: LCDM da/dt = a H, Szekeres dZ/dt = dtZ; 2 modules' K and the modules with dimensionful numerical constants are listed unverified / not typable."),
  "C18": dict(
     technique="static analysis: token-collision analysis of parser guards vs writer templates with hole alphabets, protocol-order rule, regex group-structure agreement, separator rule, module-state write rule, alias analysis of the merged overview, definite assignment / stale values across restarts (ast, re._parser, dataflow)",
     category="other", design="DESIGN.md section 9.2 and section 4 C18",
@@ -105,7 +105,7 @@ T = {
     text="Necessary conditions: index discipline and written form of st_covd_udown4 (time derivative of u_mu), acceleration, projection, expansion, shear, vorticity.",
     note="The identities themselves (theta = -K, ...) and their convergence are not decided."),
  "C20": dict(
-    technique="static analysis: must-pass-through bounds refusal on the CFG, analysis/synthesis sibling agreement, angle-role flow, loop-carried-state rule (ast + CFG)",
+    technique="static analysis: must-pass-through bounds refusal, analysis/synthesis agreement and angle roles decided on symbolic values (exact normal forms of the expressions), module-state and loop-carried-state rules, integer-overflow domain of the normalisation (ast, exact arithmetic)",
     category="other", design="DESIGN.md section 9.2 and section 4 C20",
     text="Three structural clauses: extrapolating interpolator is only reachable through the bounds refusal; decomposition and reconstruction iterate the same (l,m) and call sYlm identically (conjugated in analysis); inclination/azimuth values flow only into parameters of their role; per-radius values do not carry over between radii.",
     note="Orthonormality, normalisation and phase of sYlm, interpolation exactness and convergence are NOT decided."),
@@ -143,14 +143,22 @@ def main():
                        "reason": "check not built yet (work in progress); planned: "
                                  + t["technique"]})
     engines = [e for e in ENGINES if os.path.exists(os.path.join(HERE, e["path"]))]
-    for extra in ("tensor", "alias", "cfg", "refs"):
+    for extra in ("tensor", "alias", "cfg", "refs", "canon", "fdinterp", "symexpr", "boolnorm",
+                  "symdiff", "reading_rules", "defassign"):
         p = f"aurelsa/{extra}.py"
         if os.path.exists(os.path.join(HERE, p)):
             engines.append(dict(name=f"aurelsa.{extra}", path=p, serves_properties=[],
                                 kind_free_text={"tensor": "tensor index types + canonical tensor polynomials",
                                                 "alias": "alias/ownership/mutation dataflow",
                                                 "cfg": "statement-level control-flow graph, dominators, definite assignment",
-                                                "refs": "reference term tables (validated)"}[extra]))
+                                                "refs": "reference term tables (validated)",
+                                                "canon": "canonical form of loaded modules (behaviour-preserving rewrites)",
+                                                "fdinterp": "symbolic interpreter of the finite-difference array plumbing",
+                                                "symexpr": "scalar expressions to exact polynomials over function atoms",
+                                                "boolnorm": "quantifier normal form of membership predicates",
+                                                "symdiff": "syntactic differentiation, function atoms",
+                                                "reading_rules": "provenance / template / ordering rules for reading.py",
+                                                "defassign": "must-assigned and stale-value dataflow"}[extra]))
     m = {
         "version": 1,
         "setup_cmd": "/venv/bin/python -c \"import ast, fractions, yaml; print('aurelsa: pure-python static analysers, nothing to build')\"",
@@ -163,7 +171,7 @@ def main():
         "notes": ("Technique family: static analysis only (ast, hand-built CFG, dataflow, exact abstract domains); "
                   "no check imports or runs aurel. Exit 0 = held (KNOWN-FINDING lines for listed findings), "
                   "1 = VIOLATION, 2 = ANALYSIS-ERROR. Genuine defects of the pinned tree were repaired by 'fix:' "
-                  "commits in /repo (known_findings.json 'fixed'); seeded/ holds confirmed breaking changes."),
+                  "commits in /repo (known_findings.json 'fixed'); seeded/ holds 108 confirmed breaking changes (each reported by the check of its property) and 200 behaviour-preserving twins (every check silent), replayed by the thorough tier."),
         "not_applicable": na,
     }
     with open(os.path.join(HERE, "MANIFEST.json"), "w") as f:
